@@ -86,6 +86,15 @@ def cv_cases(ctx):
         for L in range(0, maxlen + 1):
             for ops in itertools.product([-1, 1, 3, 5], repeat=L):
                 cases.append(([0, 2, 4], list(mv), None, list(ops), "exhaustive"))
+    # (audit repair) the scope above never puts a frame ON an interface and never uses a cap: interfaces 0<2<4, every
+    # wf-flag pattern, caps none/3/4, every order sequence over -1..5 (all the <, <= boundaries of the scan, of
+    # get_start_point / get_end_point and of `intf_i <= path_max`)
+    tl = 3 if ctx.quick else 4
+    for mv in itertools.product([False, True], repeat=2):
+        for cap in (None, 3, 4):
+            for L in range(1, tl + 1):
+                for ops in itertools.product([-1, 0, 1, 2, 3, 4, 5], repeat=L):
+                    cases.append(([0, 2, 4], list(mv), cap, list(ops), "exhaustive-ties"))
     # random: 2..6 interfaces, spacings 1..3, caps, walks with small and large steps
     for _ in range(400 if ctx.quick else 6000):
         k = rng.randint(2, 6)
@@ -159,6 +168,44 @@ def run_cv(ctx, cases=None):
                 branch = "hole-with-jump" if not nj else "hole-without-jump"
         ctx.count(1, branch="cvfam:" + branch, gen=kind)
         ctx.distinct(("cv", tuple(intfs), tuple(mv), cap, tuple(ops)))
+
+
+def run_cvminus(ctx, cases=None):
+    """(audit repair) the `minus=True` branch of calc_cv_vector (Lean `WF.cvMinus`, listed as modelled): `(1.0,)` iff the bound
+    <= max(order), bound = lambda_minus_one if it `is not False` (0.0 counts as given) else interfaces[0]"""
+    from infretis.core.tis import calc_cv_vector
+    rng = ctx.rng
+    given = cases
+    cases = [([0, 2], False, []), ([1, 3], 0.0, [0, -1, 0]), ([1, 3], 0.0, [-1, -2]), ([1, 3], False, [0, -1, 0]),
+             ([1, 3], False, [1, 0, 1]), ([0, 2], -2.0, [-2, -3]), ([0, 2], -2.0, [-3, -4])]
+    for _ in range(60 if ctx.quick else 600):
+        i0 = rng.randint(-2, 2)
+        lm1 = False if rng.random() < 0.5 else float(i0 - rng.randint(1, 3))
+        ops = [rng.randint(i0 - 4, i0 + 1) for _k in range(rng.randint(1, 6))]
+        cases.append(([i0, i0 + 2], lm1, ops))
+    if given is not None:
+        cases = given
+    lines, reals = [], []
+    for intfs, lm1, ops in cases:
+        try:
+            real = "ws=" + ",".join(str(int(x)) for x in calc_cv_vector(real_path(ops), [float(x) for x in intfs], ["sh", "sh"],
+                                                                        lm1, cap=None, minus=True))
+        except Exception as e:  # noqa: BLE001
+            real = err_kind(e)
+        bound = int(lm1) if lm1 is not False else intfs[0]
+        reals.append(real)
+        lines.append(f"cvminus {bound} {lst([int(o) for o in ops])}")
+    outs = ctx.driver(lines) if ctx._driver_ok else [None] * len(lines)
+    for (intfs, lm1, ops), real, out in zip(cases, reals, outs):
+        case = {"what": "calc_cv_vector-minus", "interfaces": intfs, "lambda_minus_one": lm1, "ops": ops}
+        if out is not None and out != real:
+            ctx.disagree(case, real, out)
+        # the property side: a [0-] path that reaches its bound is valid in [0-] (add_traj's assertion holds)
+        if ops and not real.startswith("err"):
+            bound = lm1 if lm1 is not False else intfs[0]
+            if (real == "ws=1") != (max(ops) >= bound):
+                ctx.fail("C05:cv-vector:minus-weight-wrong", f"calc_cv_vector(minus=True) gave {real}, max {max(ops)}, bound {bound}", case)
+        ctx.count(1, branch="cvminus:" + real, lm1="given" if lm1 is not False else "absent")
 
 
 # ----------------------------------------------------------------------------- (2) load_paths on real Path objects
@@ -336,3 +383,24 @@ def judge_sort_log(ctx, entries):
         if miters is not None and miters != swaps:
             ctx.disagree(case, f"real swaps {swaps}", f"model iterations {miters}")
         ctx.count(1, branch="sort-iterations", swaps=str(min(swaps, 3)) + ("+" if swaps > 3 else ""))
+
+
+def judge_sortst(ctx, entries, as_fail=False):
+    """entries: (label, `sortst` line, real answer, replay params, in_family).  The Lean `sortTrajstate` (fuel n*n+4) on the very
+    state handed to the real sort_trajstate: resulting rows, slot order and number of iterations, or the error kind /
+    `err:stall`.  A difference is a broken correspondence (ctx.disagree); in a replay it is reported as still failing."""
+    if not entries or not ctx._driver_ok:
+        return
+    outs = ctx.driver([e[1] for e in entries])
+    for (label, line, real, params, in_family), out in zip(entries, outs):
+        case = {"history": label, "params": params, "ctxseed": ctx.seed, "op": line}
+        same = (out == real)
+        if not same and real.startswith("W=") and out.startswith("W="):
+            r, m = dict(t.split("=", 1) for t in real.split(" ")), dict(t.split("=", 1) for t in out.split(" "))
+            same = T.field_eq("W", r["W"], m["W"]) and r["trajs"] == m["trajs"] and r["iters"] == m["iters"]
+        if not same:
+            if as_fail:
+                ctx.fail("C05:sort-model-differs-from-code", f"real {real} / model {out}", case)
+            else:
+                ctx.disagree(case, real, out)
+        ctx.count(1, branch="sortst:" + ("family" if in_family else "off-family"), out=out.split(" ")[0][:10] if not out.startswith("W=") else "ok")
